@@ -51,6 +51,7 @@ type c03run struct {
 	o         *sim.Outcome
 	prot      []protTok
 	finished  [2]bool
+	secure    [2]bool // a session was announced and neither End() nor the peer's disconnect has happened since
 	reasm     [2]ref.Reassembler
 	situation map[string]bool
 }
@@ -110,12 +111,14 @@ func runC03(sc *LifeScript) *sim.Outcome {
 				if c.Name == "Receive" {
 					r.finished[c.Who] = true
 				}
-			case 1:
+				r.secure[c.Who] = false
+			case 1, 2: // GoneSecure, StillSecure
 				r.finished[c.Who] = false
+				r.secure[c.Who] = true
 			}
 		}
 		if c.Name == "End" {
-			r.finished[c.Who] = false
+			r.finished[c.Who], r.secure[c.Who] = false, false
 		}
 		for _, m := range c.Out {
 			r.scanWire(c.Who, m, c.Name)
@@ -133,7 +136,9 @@ func runC03(sc *LifeScript) *sim.Outcome {
 			// user text may itself look like protocol traffic
 			text = append([]byte([]string{"", "", "", "?OTR", "?OTRv23? ", "?OTR Error: ", "?OTR:AAMD", "?OTR|", "?OTR?"}[op.X%9]), text...)
 			tok := findToken(text)
-			enc := w.P[who].C.IsEncrypted()
+			// encryption is due from the announcement of a session until End() or the peer's disconnect, whatever
+			// else happened in between (a failed refresh, a randomness fault): nothing else may take it away
+			enc := w.P[who].C.IsEncrypted() || r.secure[who]
 			fin := r.finished[who] && !enc
 			req := pol[who]&sim.PolRequire != 0 && pol[who]&(sim.PolV2|sim.PolV3) != 0
 			otrOn := pol[who]&(sim.PolV2|sim.PolV3) != 0
@@ -231,7 +236,7 @@ func runC03(sc *LifeScript) *sim.Outcome {
 
 func init() { reg("C03leak", runC03); reg("C03policies", runC03) }
 
-var lifeKinds = []string{"send", "send", "send", "send", "send", "dl", "dl", "dl", "dl", "dl", "flush", "flush", "query", "query", "end", "end", "errmsg", "smp", "ans", "xk", "age", "pp", "frag", "tagged", "drop", "sess", "sess", "peerend", "peerend"}
+var lifeKinds = []string{"send", "send", "send", "send", "send", "dl", "dl", "dl", "dl", "dl", "flush", "flush", "query", "query", "end", "end", "errmsg", "smp", "ans", "xk", "age", "pp", "frag", "tagged", "drop", "sess", "sess", "peerend", "peerend", "fault", "faultsess", "faultsess"}
 
 func genPol(rt *rapid.T, label string) int {
 	// bias towards sets that allow at least one version
